@@ -1,6 +1,8 @@
 import Nsl.Props.C01
 import Nsl.Props.C01Storage
 import Nsl.Props.LowerOK
+import Nsl.Props.C04Sim
+import Nsl.Props.LowerOKVector
 /-!
 # C03 – calls pass arguments by value into isolated frames and reach the chosen overload
 
@@ -98,6 +100,26 @@ theorem C03_optimised_vm_agrees_with_reference (M : Core.Module) (hM : ScalarCor
   C01_opt_compile_correct M hM hS fuel name args g v g' as hargs hg href
 
 #print axioms C03_optimised_vm_agrees_with_reference
+
+/-- … for call graphs passing and returning vectors and matrices (stage 3; host values of the declared shapes) … -/
+theorem C03_vm_agrees_with_reference_vector (M : Core.Module) (hM : VectorCore M) (fuel : Nat) (name : String)
+    (args : List Val) (g : Globals) (v : Val) (g' : Globals) (as : List Val)
+    (hargs : HostArgsFit M name args) (hg : GlobalsFit M.globals g)
+    (href : CoreSem.invoke M fuel name args g = .done v g' as) :
+    ∃ fuel', VM.invoke (lowerModule M) fuel' name args g = .done v g' as :=
+  C04_compile_correct_vector M hM fuel name args g v g' as hargs hg href
+
+#print axioms C03_vm_agrees_with_reference_vector
+
+/-- … and for their optimised programs. -/
+theorem C03_optimised_vm_agrees_with_reference_vector (M : Core.Module) (hM : VectorCore M) (hS : NoShadow M)
+    (fuel : Nat) (name : String) (args : List Val) (g : Globals) (v : Val) (g' : Globals) (as : List Val)
+    (hargs : HostArgsFit M name args) (hg : GlobalsFit M.globals g)
+    (href : CoreSem.invoke M fuel name args g = .done v g' as) :
+    ∃ fuel', VM.invoke (Opt.optProgram (lowerModule M)) fuel' name args g = .done v g' as :=
+  C04_opt_compile_correct_vector M hM hS fuel name args g v g' as hargs hg href
+
+#print axioms C03_optimised_vm_agrees_with_reference_vector
 
 /-- The lowering of a call names exactly the resolved callee and passes the lowered arguments in order. -/
 theorem C03_callee_is_resolved_name (fn : String) (ty : ITy) (args : Args) (k : Nat) :
